@@ -40,7 +40,7 @@ def unval(x):
     return {'t': 'other', 'v': 0}
 
 
-def make_func(sig, name='kf'):
+def make_func(sig, name='kf', strret=False):
     """def kf(<sig>): record an evaluation and return a token describing the binding received"""
     params = []
     for p in sig['pos']:
@@ -54,11 +54,10 @@ def make_func(sig, name='kf'):
     if sig['vk']:
         params.append('**kw')
     named = [p['n'] for p in sig['pos']] + [p['n'] for p in sig['ko']]
-    body = ['    EVALS.append(1)',
-            '    return (%s, %s, %s)' % (
-                '(' + ''.join('(%r, %s), ' % (n, n) for n in named) + ')',
-                'tuple(a)' if sig['va'] else '()',
-                'tuple(kw.items())' if sig['vk'] else '()')]
+    tok = '(%s, %s, %s)' % ('(' + ''.join('(%r, %s), ' % (n, n) for n in named) + ')',
+                             'tuple(a)' if sig['va'] else '()',
+                             'tuple(kw.items())' if sig['vk'] else '()')
+    body = ['    EVALS.append(1)', '    return ' + ('repr(%s)' % tok if strret else tok)]
     src = 'def %s(%s):\n%s\n' % (name, ', '.join(params), '\n'.join(body))
     ns = {'EVALS': EVALS}
     exec(src, ns)
@@ -209,7 +208,7 @@ def worker(jobfile, outfile):
                 except Exception as ex:
                     res['khex'].append('exc:' + type(ex).__name__)
         else:   # 'write' / 'read': a decorated function on a persistent archive
-            func, _ = make_func(group['sig'])
+            func, _ = make_func(group['sig'], strret=True)   # (the sqlite fallback stores scalars only)
             A = klepto.archives
             kind, loc = item['archive']
             if kind == 'file':
